@@ -317,6 +317,15 @@ def check_P_option(rep, prog):
     dest = cli.options.get("-P")
     sts = [(a, v, g, e) for a, v, g, e in cli.config_stores() if a == "allow_plugins"]
     ok = dest is not None and cli.options.get("--skip-parser-plugins") == dest and len(sts) == 1 and sts[0][1] == Const(False) and sts[0][2] == cli.arg(dest)
+    if not ok and dest is not None and cli.options.get("--skip-parser-plugins") == dest and sts:
+        # any other way of writing it: the value the option object ends up with is 'not <the switch>'
+        I0 = Interpreter(prog)
+        val = I0.obj(I0.new("pel.peltool.config.Config")).attrs.get("allow_plugins", Const(True))
+        for a, v, g, e in sts:
+            val = pelx.ite(g, v, val)
+        sw = cli.arg(dest)
+        tv = I0.truth(val)
+        ok = implies(and_(tv, sw), FALSE)[0] and implies(not_(sw), tv)[0]
     rep.check(ok, "C18.R5.disabled-switch", "-P/--skip-parser-plugins sets Config.allow_plugins = False", "main", "config.allow_plugins = False",
               "-P does not switch Config.allow_plugins off")
     I = cli.I
